@@ -133,6 +133,16 @@ func (e *Env) tr(x *Expr) Val {
 		v := n.tr(x.Args[0])
 		return n.rv(v)
 	case "field":
+		if b := x.Args[0]; b.Op == "id" {
+			if _, isVar := e.vars[b.Name]; !isVar {
+				if pk := e.g.prog.pkgByName(b.Name, e.pkg); pk != nil {
+					n := e.child()
+					n.pkg = pk
+					n.vars = map[string]Val{}
+					return n.ident(x.Name)
+				}
+			}
+		}
 		return e.field(e.tr(x.Args[0]), x.Name)
 	case "index":
 		base := e.tr(x.Args[0])
@@ -344,6 +354,20 @@ func namedOwner(t types.Type) string {
 }
 
 func (e *Env) field(base Val, name string) Val {
+	// captured variables in closures are pointers to the variable: dereference implicitly
+	for base.GoT != nil {
+		p, ok := base.GoT.Underlying().(*types.Pointer)
+		if !ok {
+			break
+		}
+		_, ptrToPtr := p.Elem().Underlying().(*types.Pointer)
+		_, ptrToIface := p.Elem().Underlying().(*types.Interface)
+		if !ptrToPtr && !ptrToIface {
+			break
+		}
+		b := e.rv(base)
+		base = Val{Addr: b.T, GoT: p.Elem()}
+	}
 	// pseudo-fields on slices
 	if !base.isLv() || base.GoT != nil {
 		// fallthrough below
@@ -376,6 +400,12 @@ func (e *Env) field(base Val, name string) Val {
 		}
 		if _, ok := base.GoT.Underlying().(*types.Interface); ok {
 			b := e.rv(base)
+			if owner := namedOwner(base.GoT); owner != "" {
+				if g, ok := e.g.prog.specs.Ghosts[owner+"."+name]; ok {
+					k := e.u().ghostKind(g.Type)
+					return Val{Addr: fmt.Sprintf("(fld (i_val %s) %s)", b.T, smtI(int64(g.ID))), GKind: k}
+				}
+			}
 			switch name {
 			case "typ":
 				return Val{T: "(i_typ " + b.T + ")", Sort: "Int"}
@@ -580,6 +610,21 @@ func (e *Env) call(x *Expr) Val {
 			fail("fresh() needs an old state")
 		}
 		return Val{T: "(and (<= " + e.old.A + " " + obj + ") (< " + obj + " " + e.cur.A + "))", Sort: "Bool"}
+	case "loopfresh":
+		// loopfresh(k, x): x was allocated after loop k was entered
+		if len(x.Args) != 2 || x.Args[0].Op != "int" {
+			fail("usage: loopfresh(<loop ordinal>, x)")
+		}
+		ap, ok := e.vars["$loopApre"+x.Args[0].Int.String()]
+		if !ok {
+			fail("loopfresh(%s, ..): that loop has not been entered at this point", x.Args[0].Int)
+		}
+		b := e.rv(e.tr(x.Args[1]))
+		obj := "(l_obj " + b.T + ")"
+		if b.Sort == "Slice" {
+			obj = "(l_obj (s_arr " + b.T + "))"
+		}
+		return Val{T: "(<= " + ap.T + " " + obj + ")", Sort: "Bool"}
 	case "allocated":
 		b := e.rv(e.tr(x.Args[0]))
 		obj := "(l_obj " + b.T + ")"
